@@ -68,7 +68,7 @@ MARGIN, FEAT = 0.03, 0.05
 
 def plan(tier, seed):
     rng = random.Random(f"C20-{seed}")
-    njobs, count = (42, 400) if tier == "quick" else (474, 2400)
+    njobs, count = (42, 400) if tier == "quick" else (240, 1600)
     jobs = [{"kind": "grid", "part": p, "hashseed": 0}
             for p in ("pbc", "half") + RELATIVE]
     for _ in range(njobs):
